@@ -113,6 +113,44 @@ def check_delivery(ck: Checker, prog: Program, rule: str, class_names, only=None
     ck.floor(rule, n, floor, "constructor arguments of the settings classes")
 
 
+def check_default_sharing(ck: Checker, prog: Program, rule: str, c, flagged=None):
+    """No attribute stored by the constructor of settings class `c` shares an object with a default argument, a module-level
+    object or a mutable default of one of its parameters (deep, through the effect engine's heap)."""
+    eng = engine(prog)
+    flagged = flagged if flagged is not None else set()
+    facts = _init_facts(c)
+    if facts is None:
+        return
+    init = facts[0]
+    s = eng.summary(init)
+    mutable_default_params = set()
+    for pname, dnode in init.defaults().items():
+        dv = eng.default_value(init, pname, dnode)
+        if any(o[0] == "G" for o in dv.origins):
+            mutable_default_params.add(init.params.index(pname))
+    for (o, fld), (val, _strong) in sorted(s.heap.items(), key=lambda kv: str(kv[0])):
+        if o != ("P", 0, ()) or fld in ("attrs",):
+            continue
+        if any((b.name, fld) in flagged for b in c.mro()[1:]):
+            continue      # the sink lives in a base class and is reported there
+        bad = []
+        for (path, org) in reachable_nonlocal(eng, s, val):
+            if org[0] == "G":
+                bad.append((path, org))
+            elif org[0] == "P" and org[1] in mutable_default_params:
+                bad.append((path, org))
+        if bad:
+            path, org = bad[0]
+            what = "the default-argument object" if org[0] == "G" and "<default" in org[1] else \
+                ("a module-level object" if org[0] == "G" else f"the argument `{init.params[org[1]]}` (whose default is a shared mutable object)")
+            flagged.add((c.name, fld))
+            ck.violation(rule, init.qualname, f"self.{fld}",
+                         f"`self.{fld}{''.join('.' + x for x in path)}` is {what} ({fmt_origin(org)}): settings objects share state",
+                         loc=init.loc())
+        else:
+            ck.ok(rule, init.qualname, f"self.{fld}", detail=f"origin {_short(val)}")
+
+
 def _param_sources(init, st: ast.Assign) -> Set[str]:
     """Constructor parameters the stored value is computed from (through local temporaries)."""
     from ..dataflow import value_sources
@@ -188,36 +226,7 @@ def run(ck: Checker, prog: Program, tier: str):
                 ck.violation("C15.R2", init.qualname, "super().__init__ arguments",
                              f"base parameters not supplied (fall back to defaults, the caller's value is lost): {missing}; unknown keywords: {wrong}",
                              loc=init.loc(super_call) if super_call is not None else init.loc())
-        # ------------------------------------------------------------ R5
-        s = eng.summary(init)
-        mutable_default_params = set()
-        for pname, dnode in init.defaults().items():
-            dv = eng.default_value(init, pname, dnode)
-            if any(o[0] == "G" for o in dv.origins):
-                mutable_default_params.add(init.params.index(pname))
-        n_fields = 0
-        for (o, fld), (val, _strong) in sorted(s.heap.items(), key=lambda kv: str(kv[0])):
-            if o != ("P", 0, ()) or fld in ("attrs",):
-                continue
-            if any((b.name, fld) in flagged for b in c.mro()[1:]):
-                continue      # the sink lives in a base class and is reported there
-            n_fields += 1
-            bad = []
-            for (path, org) in reachable_nonlocal(eng, s, val):
-                if org[0] == "G":
-                    bad.append((path, org))
-                elif org[0] == "P" and org[1] in mutable_default_params:
-                    bad.append((path, org))
-            if bad:
-                path, org = bad[0]
-                what = "the default-argument object" if org[0] == "G" and "<default" in org[1] else \
-                    ("a module-level object" if org[0] == "G" else f"the argument `{init.params[org[1]]}` (whose default is a shared mutable object)")
-                flagged.add((c.name, fld))
-                ck.violation("C15.R5", init.qualname, f"self.{fld}",
-                             f"`self.{fld}{''.join('.' + x for x in path)}` is {what} ({fmt_origin(org)}): settings objects share state",
-                             loc=init.loc())
-            else:
-                ck.ok("C15.R5", init.qualname, f"self.{fld}", detail=f"origin {_short(val)}")
+        check_default_sharing(ck, prog, "C15.R5", c, flagged)
     ck.guard(_r3, ck, prog, public)
     ck.guard(_r4, ck, prog)
     ck.extra["calls_resolved"] = eng.calls_resolved
